@@ -424,6 +424,28 @@ def handover(rep, prog, rule="HANDOVER"):
         else:
             rep.violation(rule, key, "the transition computed from the POSIX rule is returned without comparing it with the last recorded "
                           "transition: a rule whose previous transition falls before it skips recorded transitions", loc)
+    # a file without recorded transitions has only the dummy first entry: it is the last entry too, and the footer's rule is
+    # then the only source of transitions - the rule must be consulted before the "landed on the dummy entry" exit
+    key = "previous: POSIX rule consulted even when the last entry is the dummy first entry"
+    pcalls = [(bi, t) for bi, t in mir.iter_calls(g) if t.get("path", "").endswith("::previous_transition") and "posix" in t.get("path", "").lower()]
+    if not pcalls:
+        rep.violation(rule, key, "anchor missing: previous_transition no longer consults the POSIX rule", g.loc())
+    for bi, t in pcalls:
+        excluded = False
+        for (c, truth, _sb) in guards(g, cfg, T, bi):
+            c2, tr2 = strip_not(c, truth)
+            if c2[0] == "bin" and c2[1] in ("Eq", "Ne") and (c2[3] == ("const", 0) or c2[2] == ("const", 0)) \
+                    and not any(is_call(y, "::len") for y in walk(c2)):
+                is_zero = (c2[1] == "Eq") == (tr2 is True)
+                if not is_zero:
+                    excluded = True
+        loc = "%s:%s" % (t["span"]["file"], t["span"]["line"])
+        if excluded:
+            rep.violation(rule, key, "the POSIX rule is consulted only when the search index is not 0: TZif data with no recorded transitions "
+                          "and a DST rule in the footer (RFC 8536: 'local time for all timestamps is specified by the TZ string') has "
+                          "its only entry at index 0, so preceding() yields nothing while following() yields every rule transition", loc)
+        else:
+            rep.ok(rule, key, how="the consult is not guarded by index != 0", loc=loc)
 
 
 def handover_civil(rep, prog, rule="HANDOVER"):
